@@ -13,6 +13,10 @@
 import json, os, re, shutil, subprocess, sys, time
 
 ENV = dict(os.environ, CARGO_NET_OFFLINE="true")
+# roots: this file's directory and the repository its `repo` symlink points to (so that a scratch copy of
+# both can be used for long re-runs without touching /repo)
+VERIF = os.path.dirname(os.path.realpath(__file__))
+REPO = os.path.realpath(os.path.join(VERIF, "repo"))
 
 
 def sh(cmd, cwd=None, timeout=3600):
@@ -29,7 +33,7 @@ def summarize_tests(out):
 
 
 def verify(wt, name):
-    dest = f"/verif/seeded/{name}"
+    dest = f"{VERIF}/seeded/{name}"
     os.makedirs(dest, exist_ok=True)
     seed = os.path.join(wt, "seed")
     meta = json.load(open(os.path.join(seed, "meta.json")))
@@ -75,32 +79,32 @@ def verify(wt, name):
 
 
 def run(name, props):
-    dest = f"/verif/seeded/{name}"
+    dest = f"{VERIF}/seeded/{name}"
     patch = os.path.join(dest, "patch.diff")
-    rc, out = sh("git status --porcelain", cwd="/repo")
+    rc, out = sh("git status --porcelain", cwd=REPO)
     if out.strip():
-        print("refusing: /repo has uncommitted changes:\n" + out)
+        print(f"refusing: {REPO} has uncommitted changes:\n" + out)
         return 2
-    rc, out = sh(f"git apply --3way {patch} || git apply {patch}", cwd="/repo")
+    rc, out = sh(f"git apply --3way {patch} || git apply {patch}", cwd=REPO)
     if rc != 0:
         print("patch does not apply:", out)
-        sh("git checkout -- . && git reset -q", cwd="/repo")
+        sh("git checkout -- . && git reset -q", cwd=REPO)
         return 2
     results = {}
     saved = {}
     for p in props:  # evidence files must describe runs on the unchanged tree: keep and restore them
-        ep = f"/verif/evidence/{p}.json"
+        ep = f"{VERIF}/evidence/{p}.json"
         if os.path.exists(ep):
             saved[ep] = open(ep).read()
     try:
         for p in props:
             t0 = time.time()
-            rc, out = sh(f"./check {p} --tier quick", cwd="/verif", timeout=3000)
+            rc, out = sh(f"./check {p} --tier quick", cwd=VERIF, timeout=3000)
             keys = re.findall(r"^violation key=(\S+)", out, re.M)
             results[p] = dict(exit=rc, violation_keys=keys[:10], wall_s=round(time.time() - t0), tail=out.strip().splitlines()[-1] if out.strip() else "")
             print(f"  {name} {p}: exit={rc} keys={keys[:4]}")
     finally:
-        sh("git reset -q && git checkout -- .", cwd="/repo")
+        sh("git reset -q && git checkout -- .", cwd=REPO)
         for ep, txt in saved.items():
             open(ep, "w").write(txt)
     old = {}
@@ -109,7 +113,7 @@ def run(name, props):
         old = json.load(open(rp))
     old.update(results)
     json.dump(old, open(rp, "w"), indent=1)
-    rc, out = sh("git status --porcelain", cwd="/repo")
+    rc, out = sh("git status --porcelain", cwd=REPO)
     assert not out.strip(), out
     return 0
 
